@@ -44,7 +44,7 @@
 //! assert!(result.all_succeeded());
 //! ```
 
-use std::collections::HashSet;
+use std::collections::{BTreeSet, HashSet};
 use std::sync::Arc;
 use std::sync::atomic::{AtomicUsize, Ordering};
 
@@ -351,15 +351,17 @@ impl ParallelExecutor {
         //
         // A transaction is re-executed once every earlier transaction is final, so it
         // reads exactly what sequential execution would read and needs no further
-        // validation.
+        // validation. An entity first written by a re-execution invalidates the later
+        // transactions that read it.
         let total_reexecutions = AtomicUsize::new(0);
+        let mut pending: BTreeSet<usize> = invalid_indices.into_iter().collect();
 
-        for idx in invalid_indices {
+        while let Some(idx) = pending.pop_first() {
             let mut result = results[idx].lock();
 
             // Clear previous state
+            let previous_writes = std::mem::take(&mut result.write_set);
             result.read_set.clear();
-            result.write_set.clear();
             result.dependencies.clear();
             result.status = ExecutionStatus::Success;
             result.error = None;
@@ -374,6 +376,30 @@ impl ParallelExecutor {
             for entity in read_entities {
                 if let Some(writer) = write_tracker.was_written_by_earlier(&entity, idx) {
                     result.dependencies.push(writer);
+                }
+            }
+
+            let new_writes: Vec<EntityId> = result
+                .write_set
+                .difference(&previous_writes)
+                .copied()
+                .collect();
+            drop(result);
+
+            for entity in &new_writes {
+                write_tracker.record_write(*entity, idx);
+            }
+            for later in (idx + 1)..n {
+                if new_writes.is_empty() || pending.contains(&later) {
+                    continue;
+                }
+                let later_result = results[later].lock();
+                if later_result
+                    .read_set
+                    .iter()
+                    .any(|(entity, _)| new_writes.contains(entity))
+                {
+                    pending.insert(later);
                 }
             }
         }
